@@ -1,11 +1,17 @@
-\* thorough: classes of up to three violated clauses, any delivery order inside a phase
+\* thorough: classes of up to three violated clauses, any delivery order inside a phase, any served subset
 SPECIFICATION Spec
 CONSTANTS
   Guard = "AsRequired"
-  Classes <- UpTo3
+  Cmp = "id"
+  Setups <- SetsQuick
+  Blocks <- BlocksUpTo3
+  Seconds <- NoSeconds
   MaxRound = 1
   MaxRestarts = 2
   Sched = "free"
+  ByzVotes = "support"
+  Loss = "none"
+  Serve = "any"
 INVARIANTS TypeOK VotesOnlyFullyValid PersistOnlyApplicable NoWedge
 VIEW View
 CHECK_DEADLOCK FALSE
